@@ -983,11 +983,15 @@ func (c *Compiler) writeNode(node, parent *node, recv, v, vsrc string, depth int
 		if parent != nil && parent.typ != typeSlice {
 			pfx = "&"
 		}
+		// Only when the path ends on this node: a miss below it must not hand out the container.
+		c.wl("if len(path) == ", depths, " {")
 		if len(vsrc) > 0 {
 			c.wl("*buf = ", pfx, vsrc)
 		} else {
 			c.wl("*buf = ", pfx, v)
 		}
+		c.wl("return")
+		c.wl("}")
 	}
 
 	return c.err
